@@ -474,7 +474,7 @@ def run(ctx):
     rng = ctx.rng
     # --- certified correspondence of the generated wallProfile --------------------------
     try:
-        rows = profile_cases(ctx, rng, ctx.n(6, 40))
+        rows = profile_cases(ctx, rng, ctx.n(4, 40))
         if gen_ok and proved is not False:
             chunks = [rows[i:i + 40] for i in range(0, len(rows), 40)]
             procs = []
@@ -483,7 +483,7 @@ def run(ctx):
                 procs.append((k, subprocess.Popen(
                     ["timeout", "600", "coqc"] + ctx.coq_args() + [p], cwd=ctx.bdir,
                     stdout=subprocess.PIPE, stderr=subprocess.PIPE, text=True)))
-            grows = grid_rows(ctx, rng, ctx.n(8, 40))
+            grows = grid_rows(ctx, rng, ctx.n(6, 40))
             p = ctx.write("Cases/UpdateGrid.v", grid_eval_file(grows))
             procs.append(("UpdateGrid", subprocess.Popen(
                 ["timeout", "600", "coqc"] + ctx.coq_args() + [p], cwd=ctx.bdir,
